@@ -453,7 +453,7 @@ func doShrink(run runFn, path string, o hx.Opts, enc *json.Encoder, bw *bufio.Wr
 		o.Param[k] = v
 	}
 	o.Verbose = false
-	try := func(ch []uint32) ([]uint32, bool) {
+	try := func(ch []uint32) ([]uint32, []uint8, bool) {
 		oo := o
 		oo.Replay = ch
 		if oo.Replay == nil {
@@ -461,11 +461,13 @@ func doShrink(run runFn, path string, o hx.Opts, enc *json.Encoder, bw *bufio.Wr
 		}
 		res := run(rf.Seed, rf.Index, oo)
 		if res.Violation != nil && res.Violation.Class == rf.Class && res.Violation.Key == rf.Key {
-			return res.Choices, true
+			return res.Choices, res.Kinds, true
 		}
-		return nil, false
+		return nil, nil, false
 	}
-	best, tried := hx.Minimise(rf.Choices, try, time.Now().Add(40*time.Second), 20000)
+	// switch whole fault kinds off first: stalled tasks, drops, duplicates, delays, coalescing, segmentation, preemption
+	order := []uint8{uint8(rt.KTimeSkip), uint8(rt.KDrop), uint8(rt.KDup), uint8(rt.KDelay), uint8(rt.KCoalesce), uint8(rt.KSeg), uint8(rt.KGap), uint8(rt.KSched), uint8(rt.KSelect)}
+	best, tried := hx.MinimiseKinds(rf.Choices, try, order, time.Now().Add(40*time.Second), 20000)
 	enc.Encode(map[string]any{"kind": "shrunk", "choices": best, "tried": tried})
 	bw.Flush()
 	return 0
